@@ -20,7 +20,9 @@ for d in sorted(glob.glob("/verif/seeded/*")):
         status = "obsolete after a repair (see meta.json)"
     if m.get("strengthened"):
         status += " (missed by the harness as it was before; strengthening: " + m["strengthened"] + ")"
-    rows.append((name, target, first, ", ".join(caught) or "-", ", ".join(tried), status, tr.get("message", "")[:160].replace("|", "/")))
+    ft = m.get("final_tree") or {}
+    final = ft.get("status", "as in the verdict (round measured on the final tree)")
+    rows.append((name, target, first, ", ".join(caught) or "-", ", ".join(tried), status, tr.get("message", "")[:160].replace("|", "/"), final.replace("|", "/")))
 
 out = []
 out.append("Each change below was written by a fresh sub-agent that saw only the text of one property and a scratch")
@@ -29,15 +31,23 @@ out.append("builds, the whole pinned suite passes with it, and its demonstration
 out.append("(`bin/seedtest.py`, phase 1). Phase 2 applies it to `/repo`, runs the quick checks, and restores `/repo`.")
 out.append("`seeded/<name>/` holds `patch.diff`, `demo.rs` and `meta.json` (what it needs to manifest, what was run, per-check results).")
 out.append("")
-out.append("| change | breaks | what it needs to manifest (from the author's note) | quick checks that report a VIOLATION | checks run | verdict |")
-out.append("|---|---|---|---|---|---|")
+out.append("The last column is the re-measurement of every change on the final tree (`bin/reseed_all.py`, `bin/rebase_import.py`,")
+out.append("`seeded/RESEED.json`, `seeded/REBASED.json`, `seeded/MANUAL.json`): a patch that no longer applied after the repairs was")
+out.append("ported to the current code by a sub-agent (`patch.rebased.diff`, demonstration re-confirmed by `bin/rebase_import.py`), or has")
+out.append("no counterpart any more because a repair removed the code path it edits.")
+out.append("")
+out.append("| change | breaks | what it needs to manifest (from the author's note) | quick checks that report a VIOLATION | checks run | verdict when the round arrived | on the final tree |")
+out.append("|---|---|---|---|---|---|---|")
 for r in rows:
-    out.append(f"| {r[0]} | {r[1]} | {r[2]} | {r[3]} | {r[4]} | {r[5]} |")
+    out.append(f"| {r[0]} | {r[1]} | {r[2]} | {r[3]} | {r[4]} | {r[5]} | {r[7]} |")
 n = len(rows)
 own = sum(1 for r in rows if r[5].startswith("caught by its own"))
 anyc = sum(1 for r in rows if r[3] != "-")
 out.append("")
 out.append(f"Summary: {n} confirmed changes; {own} caught by the quick check of the property they were written against, {anyc} caught by at least one quick check.")
+import collections
+fin = collections.Counter(r[7].split(":")[0] for r in rows)
+out.append("On the final tree: " + "; ".join(f"{v} x {k}" for k, v in sorted(fin.items(), key=lambda kv: -kv[1])) + ".")
 extra = "/verif/seeded/NOTES.md"
 if os.path.exists(extra):
     out.append("")
